@@ -198,15 +198,44 @@ def sim_part(tier, rng, drv, res, monitors_on=("ticker", "device_order"), corr=(
             SC.check_run(scn, run, drv, res, monitors_on=monitors_on, corr=corr, case_extra={"bus": b})
 
 
+def midtick_part(tier, rng, drv, res):
+    """interrupts that land in the MIDDLE of a (nested) tick, at every loop step of it: a quiet device whose dependant is
+    also fed by a device that is updated in that tick, while an unrelated slow branch keeps the tick open.  Whatever the
+    scheduler does with such an interrupt, within one tick nobody is updated twice or before an upstream that takes part."""
+    import copy
+    from .c07 import dev
+    P = 10_000_000
+    inner = [dev("pulse", cb={"kind": "period", "p": P}, cost=50_000), dev("knob", cost=20_000), dev("reader", {"p": ["pulse", "o"], "k": ["knob", "o"]}, cost=20_000),
+             dev("s1", {"i": ["pulse", "o"]}, cost=300_000), dev("s2", {"i": ["s1", "o"]}, cost=300_000), dev("tail", {"i": ["reader", "o"]}, cost=20_000)]
+    scns = [{"components": [{"name": "msys", "kind": "sys", "inputs": {}, "expose": {"y": ["tail", "o"]}, "components": copy.deepcopy(inner)}, dev("out", {"i": ["msys", "y"]})], "n_ticks": 3},
+            {"components": copy.deepcopy(inner), "n_ticks": 3}]
+    for si, scn in enumerate(scns):
+        base = run_scenario(scn, bus="sync")
+        mt = monitors.master_tid(base)
+        calls = [e for e in base["trace"].of("t-call") if e["tid"] == mt]
+        dones = [e for e in base["trace"].of("t-done") if e["tid"] == mt]
+        if len(calls) < 2 or len(dones) < 2:
+            continue
+        for st in range(calls[1]["step"], dones[1]["step"] + 2, 1 if tier == "thorough" or dones[1]["step"] - calls[1]["step"] < 60 else 2):
+            for who in ("knob", "reader"):
+                s2 = dict(copy.deepcopy(scn), stims=[{"step": st, "comp": who}], n_ticks=4)
+                for b in ("sync", "held"):
+                    run_ = run_scenario(s2, bus=b, seed=st)
+                    res.case(f"midtick:{si}:{st}:{who}:{b}", nontrivial=bool([e for e in run_["trace"].of("raise") if e.get("ok")]))
+                    res.count("mid-tick-interrupt")
+                    SC.check_run(s2, run_, drv, res, monitors_on=("ticker", "device_order"), corr=("ticker",), case_extra={"bus": b, "held_seed": st})
+
+
 def run(tier, seed, drv):
     res = Result()
     rng = random.Random(seed)
     direct_part(tier, rng, drv, res)
     sim_part(tier, rng, drv, res)
+    midtick_part(tier, rng, drv, res)
     res.rule = ("(a) the real Ticker driven directly through its public API: all DAGs on 2-3 nodes (sampled on 4-5), up to 6 root sets each, two "
                 "output-change tables, answer orders enumerated by DFS (bounded per configuration); (b) generated flat and nested simulations "
                 "(depth <= 3) + corpus, each under the synchronous bus and two seeded delaying-bus schedules; every Ticker's call/propagate sequence is "
-                "replayed through the Lean model. non-trivial = more than one answer (direct) / at least one update beyond the initial tick (simulation)")
+                "replayed through the Lean model; (c) interrupts injected at every loop step of a nested / flat tick for a quiet device whose dependant is also fed from within the tick. non-trivial = more than one answer (direct) / at least one update beyond the initial tick (simulation)")
     return res
 
 
